@@ -10,7 +10,7 @@ MODEL_TARGETS = ['theories/Model/Eval.vo']
 MODEL_NEEDS_IMPL = True
 SHARD = 60
 SIZES = {'quick': 700, 'thorough': 12000, 'search': 6000}
-SUBSTREAMS = ['c06_limits', 'c06_multitrip']
+SUBSTREAMS = ['c06_limits', 'c06_multitrip', 'c06_multi', 'c06_time']
 RULE = ('cases: random worlds (3-6 locations, metric and non-metric asymmetric integer matrices, open/closed tours, finite and '
         'unbounded shift ends, all five vehicle cost rates), tours of 0-5 activities generated around the simulated arrival times '
         '(tight windows, waiting, occasionally infeasible), mixed static and dynamic (shipment) demand; candidate = single job '
@@ -265,9 +265,21 @@ MANIFEST_TEXT = ('Machine-checked proof (Coq) over an executable model of the in
                  'cached per-interval states are exact, an accepted insertion keeps every reload interval within capacity in every dimension '
                  '(static demand and shipments carried across reloads), exactness for static demand, the d-dimensional test is the conjunction '
                  'of one-dimensional tests; tied to /repo on every run (intervals, cached states, verdict at every leg, evaluator results, '
-                 'accept_solution_state) with an independent per-interval simulation as oracle; finding C06-F4.')
+                 'accept_solution_state) with an independent per-interval simulation as oracle; finding C06-F4. '
+                 'Sub-stream c06_multi (Model/MultiSearch.v + the eval_multi search of Model/ObjectivesX.v): the greedy sequential search '
+                 'for multi-task jobs is inside the model as a program (permutations, sub-job by sub-job on the shadow tour from the advancing '
+                 'start index, failure handling, best permutation by cost, every InsertionPosition): proved for all inputs that whatever it '
+                 'returns as Success gives a feasible tour when carried out, in increasing positions that follow a declared permutation; a '
+                 'witness that it may miss feasible combinations (allowed); the real result (verdict, cost, (index, place) list) is compared '
+                 'with the modelled search on every run. Sub-stream c06_time (Model/TimeDep.v, Spec/FeasibleT.v): the transport constraint '
+                 'generic in the cost providers, instantiated with reserved times (required breaks: lookup closure, DynamicTransportCost, '
+                 'DynamicActivityCost) and time-dependent matrices: one generic soundness theorem; soundness for time-dependent routing '
+                 'under FIFO + arrival-consistency and exactness of the cached latest arrival under the converse; for one reserved time the '
+                 'forward pass IS the physical break simulation and accepted insertions at inner legs of closed tours are feasible for it; '
+                 'refuted witnesses = findings C06-F5 (f64::MAX departure accepted), C06-F6 (two breaks in one segment), C06-F7 (decreasing '
+                 'time-dependent durations, FIFO or not), replayed on the real code.')
 MANIFEST_NOTE = ('Trusted: Coq kernel+vm_compute; harness/generators; python simulation oracle (cross-checked against the Coq spec each run). '
-                 'Modelled not verified: time-dependent routing, reserved times, offset time spans, shared reload resources, recharge (reload intervals and MultiDimLoad are in the sub-stream c06_multitrip, limits / skills / strict locks in c06_limits; the parent stream is single-interval SingleDimLoad); '
-                 'eval_multi search itself is not modelled (its result is checked as a certificate). Completeness is proved per position; '
+                 'Not modelled: shared reload resources, recharge, optional breaks as conditional jobs, notify_failure / departure rescheduling, lazy locks (reload intervals and MultiDimLoad are in the sub-stream c06_multitrip, limits / skills / strict locks in c06_limits, the eval_multi search in c06_multi, reserved times and time-dependent routing in c06_time; the parent stream is single-interval SingleDimLoad); '
+                 'reserved times: theorems for ONE reserved time, closed tours, inner legs (more is false: C06-F5/F6); Completeness is proved per position; '
                  'known incompleteness classes are listed in known_findings.json.')
-MANIFEST_TECHNIQUE = 'Coq proof (soundness/completeness of O(1) insertion tests incl. limits, skills, locks, reload intervals, multi-dimensional loads vs simulation) + vm_compute differential correspondence (three harness binaries)'
+MANIFEST_TECHNIQUE = 'Coq proof (soundness/completeness of O(1) insertion tests incl. limits, skills, locks, reload intervals, multi-dimensional loads, the eval_multi search, reserved times, time-dependent routing vs simulation) + vm_compute differential correspondence (five harness binaries)'
